@@ -775,8 +775,10 @@ _DECL_RE = re.compile(r"\(declare-fun\s+(\|[^|]*\||\S+)\s+\(\)\s+(Int|Bool)\)")
 @st.composite
 def smt_cases(draw, prof):
     case = draw(S.spec_with_pins(prof, n_sets=N_PINS_SMT))
-    mode = draw(st.sampled_from(["plain", "plain", "plain", "incremental", "incremental", "optimize", "optimize_noobj"]))
+    mode = draw(st.sampled_from(["plain", "plain", "plain", "incremental", "incremental", "optimize", "optimize_noobj", "debug"]))
     kw = None
+    if mode == "debug":
+        kw = {"debug": True}  # assertions are tracked (assert_and_track): the export must still denote the problem
     if mode in ("incremental", "optimize"):
         case["spec"]["objectives"] = [{"type": "MinimizeMakespan"}]
         kw = {"optimizer": mode}
@@ -988,7 +990,7 @@ def prop_smt2(ctx, case):
     for k, v in stats.items():
         if k not in ("evaluations", "inconclusive"):
             ctx.event("smt2:" + k, v)
-    ctx.event("smt2:mode:" + ("plain" if not kw else kw["optimizer"] + ("+objective" if spec.get("objectives") else "")))
+    ctx.event("smt2:mode:" + ("plain" if not kw else kw.get("optimizer", "debug") + ("+objective" if spec.get("objectives") else "")))
     for rule, obs, sig in findings:
         ctx.event(f"finding:C16.smt2:{rule}")
         ctx.violation(
